@@ -46,6 +46,7 @@ type Case struct {
 	File    int        `json:"file"`
 	Single  bool       `json:"single"`
 	Adm     bool       `json:"admissible"`
+	Shadow  bool       `json:"shadowed"`
 	IsDir   bool       `json:"isdir"`
 	Entries []string   `json:"entries"`
 	Listed  []int      `json:"listed"`
@@ -312,7 +313,7 @@ func runNamespace(c *Case, out *Out) {
 		if len(c.P) == 1 {
 			fuseSingle(c, l, viol)
 		}
-	} else if !crafted {
+	} else if !crafted && !c.Shadow {
 		fuseLookup(c, l, files, offsets, viol)
 	}
 }
@@ -497,6 +498,9 @@ var hostileSets = [][2]string{
 	{`<svg onload=alert_@(1)>`, "tag"},
 	{`"><img src=x onerror=alert_@(2)>`, "attr"},
 	{`a&b<c_@>'d"e`, "mix"},
+	{`<b onmouseover=alert_@(3)>x`, "tag2"},
+	{`&lt;_@&amp;<i>&#60;`, "pre-escaped"},
+	{"' onfocus='alert_@(5)' autofocus x='<", "single-quote attr"},
 }
 
 func hostileFor(src string, set int) string {
